@@ -10,6 +10,14 @@ class CompilerError(Exception):
         self.column = ctx.start.column
         self.message = msg
 
+    @classmethod
+    def at(cls, filename, line, column, msg):
+        '''creates the error for a position that is not a parse tree node.'''
+        e = cls.__new__(cls)
+        e.filename, e.line, e.column, e.message = filename, line, column, msg
+        Exception.__init__(e, msg)
+        return e
+
     def __str__(self):
         return f'{self.filename}:{self.line}:{self.column}:{self.message}'
 
